@@ -4,7 +4,7 @@ Confirms a seeded change in a scratch worktree (applies, existing suite passes, 
 and passes without it), then applies it to /repo, runs the quick check(s) of the property it targets (and of
 any extra property ids given in $EXTRA), undoes it, and stores everything under /verif/seeded/<id>/."""
 import json, os, re, shutil, subprocess, sys, glob, time
-src = sys.argv[1].rstrip("/")
+src = os.path.abspath(sys.argv[1].rstrip("/"))
 sid = sys.argv[2] if len(sys.argv) > 2 else os.path.basename(src)
 W = "/tmp/mut/wconf"
 ENV = dict(os.environ, GOFLAGS="-mod=mod", GOPROXY="off", GOSUMDB="off")
@@ -66,7 +66,7 @@ finally:
     subprocess.call("git -C /repo checkout -- . && git -C /repo clean -fdq lib", shell=True)
 dst = os.path.join("/verif/seeded", sid)
 os.makedirs(dst, exist_ok=True)
-for f in os.listdir(src):
+for f in ([] if os.path.abspath(src) == os.path.abspath(dst) else os.listdir(src)):
     shutil.copy(os.path.join(src, f), os.path.join(dst, f))
 meta.update({"confirmed": {k: res[k] for k in ("applies", "demo_passes_without", "demo_fails_with", "existing_suite_passes_with")},
              "what_we_ran": "tools/seedeval.py: scratch worktree confirmation, then git -C /repo apply; ./check <id> --tier quick; git checkout",
